@@ -30,16 +30,18 @@ def parseOp (s : String) : Option Op :=
   | ['f'] => some .finalise
   | ['l'] => some .pull
   | ['c'] => some .clear
+  | ['x'] => some .reject
   | 'p' :: r => (parseElem (String.ofList r)).map .push
   | _ => none
 
 def parseRes (s : String) : Option Res :=
   if s == "ok" then some .ok else if s == "eof" then some .eof
   else if s == "fin" then some .finalised else if s == "panic" then some .panic
-  else if s == "hang" then some .hang else none
+  else if s == "hang" then some .hang else if s == "rej" then some .rejected else none
 
 def showRes : Res → String
   | .ok => "ok" | .eof => "eof" | .finalised => "fin" | .panic => "panic" | .hang => "hang" | .ioerr => "err"
+  | .rejected => "rej"
 
 /-- one implementation token; an unknown result kind (an I/O error) gives `none` -/
 def parseOut (s : String) : Option Out :=
@@ -62,39 +64,30 @@ def nondecreasing : List Int → Bool
   | a :: b :: r => decide (a ≤ b) && nondecreasing (b :: r)
   | _ => true
 
-/-- the message of the first violated clause -/
-def firstViolation : List (Bool × String) → Option String
-  | [] => none
-  | (c, m) :: rest => if c then some m else firstViolation rest
-
-/-- The clauses of the statement of C11 for one cycle, on that cycle's outputs `outs` (pushes,
-    Finalise, pulls, optional Clear), each with "violated?".  `Properties/C11_checker.lean` proves
-    that no clause is violated iff `outs` is `specCycle ac ys cy` for some sorted enumeration `ys`
-    of the pushed values (`checkCycle_sound`, `checkCycle_complete`). -/
-def cycleClauses (ac : Bool) (cy : Cycle) (outs : List Out) : List (Bool × String) :=
+/-- The statement of C11 for one cycle, evaluated on that cycle's outputs. -/
+def checkCycle (ac : Bool) (cy : Cycle) (outs : List Out) : Option String :=
   let n := cy.pushes.length
   let pushOuts := outs.take n
   let pullOuts := (outs.drop (n + 1)).take cy.pulls
   let vals := pullOuts.filterMap (·.val)
-  [ (decide (pushOuts ≠ (List.range n).map (fun i => (⟨.ok, none, i + 1, i + 1⟩ : Out))), "push-result-or-len-pos"),
-    (decide (outs[n]? ≠ some ⟨.ok, none, n, 0⟩), "finalise-result-or-len-pos"),
-    (!nondecreasing (vals.map (·.key)), "pulls-not-nondecreasing"),
-    ((pullOuts.take n).any (fun o => o.res == .eof), "eof-before-all-values-pulled"),
-    ((pullOuts.take n).any (fun o => o.res != .ok || o.val.isNone), "pull-fails-before-drained"),
-    (decide (n ≤ cy.pulls) && !(vals.isPerm cy.pushes), "drained-multiset-differs"),
-    (decide ((vals.foldl List.erase cy.pushes).length + vals.length ≠ n), "pulled-value-never-pushed"),
-    (decide (vals.map (·.key) ≠ (sortKeys (cy.pushes.map (·.key))).take vals.length), "partial-drain-not-the-smallest"),
-    ((pullOuts.drop n).any (fun o => o.res != .eof || o.val.isSome), "no-eof-after-drain"),
-    ((List.range cy.pulls).any (fun j =>
+  if pushOuts ≠ (List.range n).map (fun i => (⟨.ok, none, i + 1, i + 1⟩ : Out)) then
+    some "push-result-or-len-pos"
+  else if outs[n]? ≠ some ⟨.ok, none, n, 0⟩ then some "finalise-result-or-len-pos"
+  else if !nondecreasing (vals.map (·.key)) then some "pulls-not-nondecreasing"
+  else if (pullOuts.take n).any (fun o => o.res == .eof) then some "eof-before-all-values-pulled"
+  else if (pullOuts.take n).any (fun o => o.res != .ok || o.val.isNone) then some "pull-fails-before-drained"
+  else if n ≤ cy.pulls && !(vals.isPerm cy.pushes) then some "drained-multiset-differs"
+  else if (vals.foldl List.erase cy.pushes).length + vals.length ≠ n then some "pulled-value-never-pushed"
+  else if vals.map (·.key) ≠ (sortKeys (cy.pushes.map (·.key))).take vals.length then
+    some "partial-drain-not-the-smallest"
+  else if (pullOuts.drop n).any (fun o => o.res != .eof || o.val.isSome) then some "no-eof-after-drain"
+  else if (List.range cy.pulls).any (fun j =>
       match pullOuts[j]? with
       | some o => if j < n then o.len != n || o.pos != j + 1
                   else o.len != (if ac then 0 else n) || o.pos != (if ac then 0 else n)
-      | none => true), "len-pos-during-pulls"),
-    (cy.clear && decide (outs[n + 1 + cy.pulls]? ≠ some ⟨.ok, none, 0, 0⟩), "clear-result-or-len-pos") ]
-
-/-- The statement of C11 for one cycle, evaluated on that cycle's outputs. -/
-def checkCycle (ac : Bool) (cy : Cycle) (outs : List Out) : Option String :=
-  firstViolation (cycleClauses ac cy outs)
+      | none => true) then some "len-pos-during-pulls"
+  else if cy.clear && outs[n + 1 + cy.pulls]? ≠ some ⟨.ok, none, 0, 0⟩ then some "clear-result-or-len-pos"
+  else none
 
 def cycleOpCount (cy : Cycle) : Nat := cy.pushes.length + 1 + cy.pulls + (if cy.clear then 1 else 0)
 
@@ -105,6 +98,37 @@ def checkHistory (ac : Bool) : List Cycle → Nat → List Out → Option String
     match checkCycle ac cy (outs.take (cycleOpCount cy)) with
     | some why => some s!"cycle{i}:{why}"
     | none => checkHistory ac rest (i + 1) (outs.drop (cycleOpCount cy))
+
+/-- The executable statement of C11 (also evaluated by the drivers of C12 and C13) on the outputs
+    of a program that is the well-formed history `h`: every call returned (one output per call)
+    and `checkHistory` accepts them.  `none` = the statement holds.  Proved sound with respect to
+    `HistorySpec` in `Properties/C11_checker.lean`. -/
+def historyStatement (ac : Bool) (h : List Cycle) (ops : List Op) (outs : List Out) : Option String :=
+  if outs.length ≠ ops.length then some "history-did-not-complete" else checkHistory ac h 1 outs
+
+/-- The statement about rejected pushes, on the outputs of a program: every `Push` of a value of
+    another type returned the type-mismatch error, delivered nothing and left `Len`/`Pos` as the
+    previous call had left them (`l`, `p`), and no other call returned that error.  `none` = holds. -/
+def rejectsStatement : List Op → List Out → Nat → Nat → Option String
+  | [], _, _, _ => none
+  | _ :: _, [], _, _ => none
+  | .reject :: ops, o :: outs, l, p =>
+    if o = ⟨.rejected, none, l, p⟩ then rejectsStatement ops outs l p
+    else some "rejected-push-changed-the-sorter-or-did-not-return-its-error"
+  | _ :: ops, o :: outs, _, _ =>
+    if o.res = .rejected then some "type-mismatch-returned-by-an-accepted-call"
+    else rejectsStatement ops outs o.len o.pos
+
+/-- The executable statement for a program with rejected pushes whose accepted calls are the
+    well-formed history `h`: every call returned, the rejected pushes are no-ops
+    (`rejectsStatement`), and the outputs of the accepted calls satisfy `historyStatement`.
+    Without rejected pushes this is `historyStatement`.  Proved sound in
+    `Properties/C11_checker.lean` (`programStatement_sound`). -/
+def programStatement (ac : Bool) (h : List Cycle) (ops : List Op) (outs : List Out) : Option String :=
+  if outs.length ≠ ops.length then some "history-did-not-complete" else
+  match rejectsStatement ops outs 0 0 with
+  | some why => some why
+  | none => historyStatement ac h (dropRejects ops) (dropRejOuts outs)
 
 def stripTag (tok : String) : String :=
   match tok.splitOn "/" with
@@ -123,7 +147,8 @@ def handleTokens (inp : List String) (obs : String) : Verdict :=
       let implToks := tokens obs
       let impl := " ".intercalate (implToks.map stripTag)
       let base := [if ac then "autoclear" else "noautoclear", if ty == "s" then "struct" else "int"]
-      match historyOf ac ops with
+      let rejects := ops.any (· == Op.reject)
+      match historyOf ac (dropRejects ops) with
       | some h =>
         let disk := h.map (fun cy => decide (c ≤ cy.pushes.length))
         let memThenDisk := (disk.zip (disk.drop 1)).any (fun p => !p.1 && p.2)
@@ -132,14 +157,13 @@ def handleTokens (inp : List String) (obs : String) : Verdict :=
         let tags := base ++ [s!"cycles{min h.length 6}"]
           ++ (if disk.any id then ["disk"] else []) ++ (if disk.any (!·) then ["mem"] else [])
           ++ (if memThenDisk then ["mem-then-disk"] else []) ++ (if partial_ then ["partial-drain"] else [])
-          ++ (if dup then ["dup-keys"] else [])
+          ++ (if dup then ["dup-keys"] else []) ++ (if rejects then ["rejected-push"] else [])
           ++ (if disk.any id || h.length ≥ 2 then ["nt"] else [])
         if c = 0 then (if m == impl then ok tags else diff m tags) else
         match implToks.mapM parseOut with
         | none => fail "call-returned-unexpected-error-or-died" tags
         | some outs =>
-          if outs.length ≠ ops.length then fail "history-did-not-complete" tags else
-          match checkHistory ac h 1 outs with
+          match programStatement ac h ops outs with
           | some why => fail why tags
           | none => if m == impl then ok tags else diff m tags
       | none =>
